@@ -25,6 +25,8 @@ pub enum BloomCfg {
     Default,
     /// tiny filter: max_buf_bits_count = n
     Bits(usize),
+    /// the same n bits probed with k hash functions (default: 2)
+    BitsK(usize, usize),
 }
 
 #[derive(Debug, Clone, PartialEq, Eq, Hash, serde::Serialize, serde::Deserialize)]
@@ -93,6 +95,9 @@ pub enum Op {
     /// dumped, nothing synced beyond what the background sync did), then build + init
     KillRst,
     KillRstLazy,
+    /// close, then build + init with the other number of bloom hash functions (same bit count):
+    /// blobs written under different filter configurations coexist afterwards
+    RstOtherHashers,
 }
 
 impl Op {
@@ -312,6 +317,14 @@ pub fn builder(dir: &Path, cfg: &WCfg) -> Builder {
             c.max_buf_bits_count = n;
             b = b.set_filter_config(c);
         }
+        BloomCfg::BitsK(n, k) => {
+            let mut c = BloomConfig::default();
+            c.elements = 8;
+            c.preferred_false_positive_rate = 1e-9;
+            c.max_buf_bits_count = n;
+            c.hashers_count = k;
+            b = b.set_filter_config(c);
+        }
     }
     b
 }
@@ -458,6 +471,18 @@ impl<K: HKey> World<K> {
                     return Outcome::Res(Res::Err, format!("close: {e:#}"));
                 }
                 res(self.init(op == Op::RstLazy).await)
+            }
+            Op::RstOtherHashers => {
+                if let Err(e) = self.close().await {
+                    return Outcome::Res(Res::Err, format!("close: {e:#}"));
+                }
+                self.cfg.bloom = match self.cfg.bloom {
+                    BloomCfg::Bits(n) => BloomCfg::BitsK(n, 1),
+                    BloomCfg::BitsK(n, 1) => BloomCfg::BitsK(n, 3),
+                    BloomCfg::BitsK(n, _) => BloomCfg::Bits(n),
+                    other => other,
+                };
+                res(self.init(false).await)
             }
             Op::KillRst | Op::KillRstLazy => {
                 drop(self.storage.take());
